@@ -58,3 +58,42 @@ Definition check_typed (c : ty * string * option value) : bool :=
   | None, None => true
   | _, _ => false
   end.
+
+(* ---------- stream-level codec (Codec.v) on descriptors printed from reflection (Desc.v) ---------- *)
+From V.C08 Require Import Codec Desc.
+
+Inductive ccase :=
+| CDec (g : gty) (input : string) (o : option value)     (* rlp.DecodeBytes(input, &T): value / rejected *)
+| CEnc (g : gty) (v : value) (o : option string)         (* rlp.EncodeToBytes(v): bytes / error *)
+| CBadTy (g : gty).                                      (* the package refuses the type *)
+
+Definition check_codec (c : ccase) : bool :=
+  match c with
+  | CDec g h o =>
+    match lower g with
+    | None => false
+    | Some t =>
+      let b := unhex h in
+      match tdec_bytes t b, o with
+      | Ok v, Some v' => value_eqb v v' && wfv t v &&
+                         match tenc t v with Some b' => bytes_eqb b' b | None => false end
+      | Err _, None => true
+      | _, _ => false
+      end
+    end
+  | CEnc g v o =>
+    match lower g with
+    | None => false
+    | Some t =>
+      match tenc t v, o with
+      | Some b, Some h => bytes_eqb b (unhex h) &&
+                          (* model's own round trip on this value, when it is in the theorem's domain *)
+                          (if cty_ok t && wfv t v
+                           then match tdec_bytes t b with Ok v' => value_eqb v' v | Err _ => false end
+                           else true)
+      | None, None => true
+      | _, _ => false
+      end
+    end
+  | CBadTy g => match lower g with None => true | Some _ => false end
+  end.
